@@ -1,4 +1,5 @@
 import GeoVerif.Series.GeodSeries
+import GeoVerif.Series.GeodTrig
 import GeoVerif.Model.Clenshaw
 import GeoVerif.Spec.RealInst
 import Mathlib.Tactic.Ring
@@ -25,6 +26,39 @@ theorem c1_table : ((List.range N).all fun i => checkC1 (i + 1)) = true := by de
 theorem a2_table : checkA2 = true := by decide +kernel
 
 theorem c2_table : ((List.range N).all fun i => checkC2 (i + 1)) = true := by decide +kernel
+
+/-! ### the reverted series C1′ (table `C1pf`)
+
+Trigonometric polynomials in `φ = 2σ` with coefficients in `ℚ[ε]/ε^{N+1}` (`Series/Trig.lean`: exact product-to-sum
+multiplication, no truncation of harmonics). -/
+
+/-- **C1′ reverts C1** (Karney 2013, eq. 20–21).  With `τ = σ + B1(2σ)`, `B1(φ) = Σ_{l=1}^{N} C1_l sin lφ`, and
+    `σ = τ + B1′(2τ)`, `B1′(φ) = Σ_{l=1}^{N} C1′_l sin lφ`, the composition is the identity modulo `ε^{N+1}`:
+    `B1(φ) + Σ_{k=0}^{N} (2·B1(φ))^k/k! · (d/dφ)^k B1′(φ) = 0` in `(ℚ[ε]/ε^{N+1})[cos φ, sin φ]`
+    (the Taylor series of `B1′(φ + 2 B1(φ))`; terms `k > N` vanish because `B1 = O(ε)`).
+    The map `f(φ) ↦ f(φ + 2 B1(φ))` is an automorphism of that ring, so this relation determines every `C1′_l`
+    modulo `ε^{N+1}` from the `C1_l`, which `c1_table` ties to the integrand of I1: a full certificate of the
+    `C1pf` table (all its entries lie below `ε^{N+1}`). -/
+theorem c1p_reverts_c1 : checkC1p = true := by decide +kernel
+
+/-! ### I3: the tables `A3coeff`, `C3coeff` (bivariate in `n`, `ε`) -/
+
+/-- the layouts of `A3coeff`/`A3f` and `C3coeff`/`C3f` consume the tables exactly -/
+theorem table_sizes3 : a3Size = Gen.GeodSeries.A3coeff.length ∧ c3Size = Gen.GeodSeries.C3coeff.length := by decide +kernel
+
+/-- `W = (1 − ε)√(1 + k² sin²σ)`, `k² = 4ε/(1 − ε)²`, has the cosine series used below: `W² = 1 − 2ε cos 2σ + ε²`
+    (mod `ε^{N+1}`) and `W = 1 + O(ε)` — this is a statement about binomial coefficients only (no table) -/
+theorem w_series : checkW (N + 1) = true := by decide +kernel
+
+/-- **A3 and C3** (Karney 2013, eq. 8, 23–25; `computeI3` of `maxima/geod.mac`).  With `f = 2n/(1 + n)` the integrand of I3 is
+    `(2 − f)/(1 + (1 − f)√(1 + k² sin²σ)) = 2(1 − ε)/((1 + n)(1 − ε) + (1 − n) W)`, and
+    `dI3/dσ = A3·(1 + Σ_{l=1}^{N−1} 2l·C3_l cos 2lσ)`.  Certified:
+    `A3·(1 + Σ_l 2l C3_l cos 2lσ) · ((1 + n)(1 − ε) + (1 − n) W) = 2(1 − ε)`
+    as trigonometric polynomials with coefficients in `ℚ[n, ε]` modulo total degree `N` — exactly the truncation
+    `jtaylor(·, n, eps, N−1)` of the generator.  The second factor has constant term 2, hence is a unit, so the
+    relation determines `A3` and every `A3·C3_l`, hence (A3 = 1 + …) every `C3_l`, modulo total degree `N`; all table
+    entries have total degree `≤ N − 1`: a full certificate of both tables. -/
+theorem a3_c3_table : checkA3C3 = true := by decide +kernel
 
 /-! ### Clenshaw summation computes the trigonometric sums it stands for -/
 
